@@ -45,7 +45,7 @@ theorem Kept.fdtGetNext {k : Nat} {f : FileDesc} {P : Prop} {s : State} (h : Kep
   · apply Kept.fdtAdvance
     unfold fdtMaybePublish
     split
-    · exact h.publish now
+    · exact publishTry_elim (P := fun x => Kept k f P x) s now (h.publish now) h
     · exact h
 
 theorem Kept.runFdt {k : Nat} {f : FileDesc} {P : Prop} : ∀ fuel (s : State) now, Kept k f P s →
@@ -109,7 +109,7 @@ theorem Kept.getNextFile {k : Nat} {f : FileDesc} {P : Prop} {s s' : State} {pri
     rw [← e1]
     unfold autoPublish
     split
-    · exact h1.publish now
+    · exact publishTry_elim (P := fun x => Kept k f P x) _ now (h1.publish now) h1
     · exact h1
 
 theorem Kept.done {k : Nat} {f : FileDesc} {P : Prop} {s : State} (h : Kept k f P s) (x now : Nat) (hne : x ≠ k) :
@@ -200,7 +200,7 @@ theorem getNextFile_fdtQueue {s s' : State} {prio now : Nat} {ticks : List (Nat 
     rw [← hg.1]
     unfold autoPublish
     split
-    · exact publish_fdtQueue_ne _ now
+    · exact publishTry_elim (P := fun x => x.fdtQueue ≠ []) _ now (publish_fdtQueue_ne _ now) h
     · exact h
 
 theorem runFile_pending (fuel : Nat) (s : State) (prio : Nat) (cur : Option Cur) (now : Nat)
@@ -598,7 +598,9 @@ theorem run_idx (cfg : Cfg) (tbl : List Nat) (ops : List Op) : IdxOk (run (init 
         · rfl
         · split <;> rfl
       show IdxOk (addObject s a).1.sessions; rw [this]; exact h
-    | publish now => exact h
+    | publish now =>
+      show IdxOk (publishOp s now).sessions
+      unfold publishOp; rw [publishTry_sessions]; exact h
     | remove t =>
       have : (removeObject s t).1.sessions = s.sessions := by unfold removeObject; split <;> rfl
       show IdxOk (removeObject s t).1.sessions; rw [this]; exact h
